@@ -53,7 +53,7 @@ const PATHS: &[&str] = &[
     "/bkt/a%2Ab",
 ];
 const QUERIES: &[&str] = &["", "a=1", "a=", "a", "b=2&a=1", "a=2&a=1", "a=1&a=2", "a=%20+%2F", "k=%C3%A9", "A=1&a=2"];
-const HDR_VARIANTS: usize = 8;
+const HDR_VARIANTS: usize = 10;
 
 fn hdr_variant(r: &mut Req, v: usize) {
     match v {
@@ -68,6 +68,17 @@ fn hdr_variant(r: &mut Req, v: usize) {
         5 => r.headers.push(("X-Amz-Meta-A".into(), b"v".to_vec())),
         6 => r.headers.push(("x-amz-object-attributes".into(), b"ETag,Checksum".to_vec())),
         7 => r.headers.push(("x-amz-meta-a".into(), b"a, b;c=\"d\"".to_vec())),
+        8 => {
+            // repeated lines whose values are not in ascending order: the order sent is the order signed
+            r.headers.push(("x-amz-meta-a".into(), b"zulu".to_vec()));
+            r.headers.push(("x-amz-meta-a".into(), b"alpha".to_vec()));
+        }
+        9 => {
+            r.headers.push(("x-amz-meta-a".into(), b"b".to_vec()));
+            r.headers.push(("x-amz-meta-b".into(), b"1".to_vec()));
+            r.headers.push(("x-amz-meta-a".into(), b"a".to_vec()));
+            r.headers.push(("x-amz-meta-a".into(), b"b".to_vec()));
+        }
         _ => unreachable!(),
     }
 }
@@ -660,7 +671,7 @@ pub fn run(ctx: &Ctx) -> (Acc, Report) {
     });
     let rep = Report {
         level: "exploration",
-        rule: format!("{n_bases} honestly signed base requests (method x 15 paths x 10 query multisets x 8 signed-header shapes x payload/mode x HTTP/1.1|HTTP/2), each with every applicable single-component mutation (each signed header value/name/removal, each query pair, each path byte, method, each body byte, each signature digit, each scope field, dates, provider secret, signed-header list) and 6 canonical-equivalent rewrites; oracle = reference verifier on the same bytes. Distinct by (base, mutation) id; every evaluated case is non-trivial (it reaches signature comparison or a parse refusal)."),
+        rule: format!("{n_bases} honestly signed base requests (method x 15 paths x 10 query multisets x 10 signed-header shapes x payload/mode x HTTP/1.1|HTTP/2), each with every applicable single-component mutation (each signed header value/name/removal, each query pair, each path byte, method, each body byte, each signature digit, each scope field, dates, provider secret, signed-header list) and 6 canonical-equivalent rewrites; oracle = reference verifier on the same bytes. Distinct by (base, mutation) id; every evaluated case is non-trivial (it reaches signature comparison or a parse refusal)."),
         exhaustive: true,
         extra: json!({"base_requests": n_bases, "quick_tier_note": "quick keeps grid points where at most one of (path, query, header-shape, http2) is beyond its first two values; thorough is the full product"}),
         assumptions: vec![
